@@ -18,6 +18,7 @@ from .base import Scenario, solo_events, callers_of
 OPS = {'add': np.add, 'subtract': np.subtract, 'multiply': np.multiply, 'divide': np.divide, 'power': np.power}
 DUNDER = {'s+': 'add', 's-': 'subtract', 's*': 'multiply', 's/': 'divide', 's**': 'power'}
 METHOD = {'Spectrum.' + k: k for k in OPS}
+METHOD['material.product'] = 'multiply'      # Material.transmission / .emission: contam * spectrum, computed at every access
 AUGMENTED = {'s+=': 'add', 's-=': 'subtract', 's*=': 'multiply', 's/=': 'divide', 's**=': 'power'}     # x op= y through operator.iadd & co
 
 
@@ -213,6 +214,13 @@ class ArithHooks(Hooks):
         it.probe('check:new_object')
         if any(r is x for x in (a, b)):
             it.violate('C13.operands', {'fn': fn, 'what': 'result-is-an-operand', 'role': 'result'}, 'the result is one of the operands', i)
+        elif any(v is r for kk, v in it.store.items() if kk != ev.get('id')):
+            it.violate('C13.operands', {'fn': fn, 'what': 'result-is-an-existing-spectrum', 'role': 'result'},
+                       'the result is a spectrum that an earlier operation already handed out, not a new one', i)
+        if fn == 'material.product':
+            it.probe('material_product')
+            if tag.get('after_result_write'):
+                it.probe('material_product_after_result_edit')
         rm = MS.of(r)
         spec_a = isinstance(a, S)
         spec_b = isinstance(b, S)
@@ -353,7 +361,8 @@ class SpectrumArithScenario(Scenario):
                    'scipy.interpolate.interp1d is the trusted interpolation reference; two-element fill values are not generated for binary '
                    'operators (the statement speaks of "the fill value")']
     must_hit = ['pair:nm-nm', 'pair:nm-um', 'pair:angstrom-um', 'pair:m-nm', 'disjoint_ranges', 'sampling:left', 'sampling:right', 'sampling:float',
-                'op_repeated_after_to', 'commuted_pair', 'scalar_op', 'op_repeated_after_assignment', 'identity_scalar', 'ndarray_times_spectrum', 'blackbody_operand', 'op_repeated_after_result_write', 'operand_with_history', 'augmented_assignment_form', 'op_repeated_after_inplace_value_edit']
+                'op_repeated_after_to', 'commuted_pair', 'scalar_op', 'op_repeated_after_assignment', 'identity_scalar', 'ndarray_times_spectrum', 'blackbody_operand', 'op_repeated_after_result_write', 'operand_with_history', 'augmented_assignment_form', 'op_repeated_after_inplace_value_edit', 'material_product',
+                'material_product_after_result_edit']
     probe_names = must_hit + ['coldwarm_audit', 'ambiguous_grid', 'pair:um-um', 'pair:angstrom-nm', 'pair:m-um', 'pair:angstrom-m']
 
     # ---------------------------------------------------------------- generation
@@ -478,6 +487,35 @@ class SpectrumArithScenario(Scenario):
                     e.setdefault('t', {})['history_operand'] = True
                     e.get('k', {}).pop('method', None)
                     mine.append(e['id'])
+                continue
+            if r < 0.035 + 0.06:
+                # a Material hands out contam * transmission and contam * emission: products like any other -- new spectra, computed
+                # from the operands as they are now -- however often they are asked for and whatever the caller did with the last one
+                plain = [x for x in pool if x.get('vunit') is None]
+                sp = rng.choice(plain or pool)
+                others = [x for x in plain if x['id'] != sp['id']]
+                cref = '@' + rng.choice(others)['id'] if others and rng.random() < 0.6 else rng.choice([0.9, 1, 0.5])
+                which = rng.choice(['transmission', 'emission'])
+                mid = nid('mat')
+                prog.append({'c': c, 'fn': 'Material', 'a': [], 'k': {which: '@' + sp['id'], 'contam': cref}, 'id': mid})
+                e = E('material.product', [cref, '@' + sp['id'], '@' + mid, which], t={'expect': 'ok'})
+                mine.append(e['id'])
+                for _k in range(rng.randint(1, 2)):
+                    how = rng.choice(['scale', 'to', 'crop', 'none'])
+                    if how == 'scale':
+                        prog.append({'env': 'perturb_attr', 'c': c, 'target': '@' + e['id'], 'attr': rng.choice(['wave', 'value']),
+                                     'how': 'scale', 'by': rng.choice([1.05, 0.5, 1e-3]), 'unshared': True})
+                    elif how == 'to':
+                        prog.append({'c': c, 'fn': 'Spectrum.to', 'a': ['@' + e['id'], rng.choice(['um', 'm', 'angstrom'])], 'id': nid('ed'),
+                                     'inplace': ['@' + e['id']]})
+                    elif how == 'crop':
+                        prog.append({'c': c, 'fn': 'h.crop_idx', 'a': ['@' + e['id'], 1, 2], 'id': nid('ed'), 'inplace': ['@' + e['id']]})
+                    d = copy.deepcopy(e)
+                    d['id'] = nid('again')
+                    d['t']['after_result_write'] = how != 'none'
+                    prog.append(d)
+                    mine.append(d['id'])
+                    e = d
                 continue
             if r < 0.38:
                 e = binop_event(a, b)
